@@ -145,6 +145,16 @@ func harnessC05Mutation(maxLen int, alphabet string) {
 	verifReach("end")
 }
 
+// Text without '+' or '-' is an assignment: applying the canonical text of any mode n to any mode yields n
+// ("N" included: it clears the mode).
+func Harness_C05_mutation_assign() {
+	m := verifMode8("m")
+	n := verifMode8("n")
+	err := m.ApplyMutation(n.String())
+	verifAssert(err == nil && m == n, "mutation-with-plain-text-assigns")
+	verifReach("end")
+}
+
 func Harness_C05_mutation_len3() { harnessC05Mutation(3, "") }
 func Harness_C05_mutation_len4_alpha() { harnessC05Mutation(4, "JrN+-x") }
 func Harness_C05_mutation_len5_alpha() { harnessC05Mutation(5, "JrN+-x") }
